@@ -19,8 +19,8 @@ KNOWN = os.path.join(ROOT, 'known_findings.json')
 
 LEVEL = {'C03': 'fault_enumeration', 'C04': 'fault_enumeration', 'C19': 'fault_enumeration'}
 VARIANTS = {  # property -> variants used per tier (first is the primary)
-    'C06': {'quick': ['asan'], 'thorough': ['asan']},
-    'C07': {'quick': ['asan'], 'thorough': ['asan']},
+    'C06': {'quick': ['asan', 'race'], 'thorough': ['asan', 'race']},
+    'C07': {'quick': ['asan'], 'thorough': ['asan', 'race']},
     'C04': {'quick': ['asan'], 'thorough': ['asan', 'swcrc']},
     'C03': {'quick': ['asan'], 'thorough': ['asan', 'swcrc']},
 }
